@@ -28,6 +28,7 @@ Proof. intros b t l Ht [H|H]; [left; exact H|right]. unfold nosugar in *; simpl.
 
 Section Resume.
 Variable b : bool.
+Variable c : bool.
 Variable u : queue.
 (* for the parser as it is (b = false) the lemmas are stated for continuations without a lexer
    error (with one, an out-of-fuel artefact of the model would have to be excluded instead) *)
@@ -35,7 +36,7 @@ Hypothesis Hu : b = false -> q_err u = false.
 
 Definition kcompat (k : sexp -> queue -> outcome) : Prop :=
   forall e q, is_send e = false -> q_err q = false -> okb b (q_toks q ++ q_toks u) ->
-    resume b (k e q) u = k e (qapp q u).
+    resume b c (k e q) u = k e (qapp q u).
 
 Lemma qapp_nil : forall q, q_toks q = [] -> qapp q u = u.
 Proof. intros q H; unfold qapp; rewrite H; destruct u; reflexivity. Qed.
@@ -49,6 +50,21 @@ Proof. intros q n H; unfold tok_at, qapp; simpl. apply app_nth1; exact H. Qed.
 Lemma tok_at_qapp0 : forall q, q_toks q <> [] -> tok_at (qapp q u) 0 = tok_at q 0.
 Proof. intros q H; apply tok_at_qapp. destruct (q_toks q); [congruence|simpl; lia]. Qed.
 
+Lemma nth_qapp : forall q n, (n < length (q_toks q))%nat -> nth_error (q_toks (qapp q u)) n = nth_error (q_toks q) n.
+Proof. intros q n H; unfold qapp; simpl. apply nth_error_app1; exact H. Qed.
+
+Lemma idx_qapp : forall q n k, (n < length (q_toks q))%nat -> idx (qapp q u) n k = idx q n k.
+Proof. intros q n k H; unfold idx, qapp; simpl. rewrite nth_error_app1 by exact H. reflexivity. Qed.
+
+Lemma q_drop_qapp : forall q n, (n <= length (q_toks q))%nat -> q_drop n (qapp q u) = qapp (q_drop n q) u.
+Proof. intros q n H; unfold q_drop, qapp; simpl. rewrite skipn_app. replace (n - length (q_toks q))%nat with 0%nat by lia. reflexivity. Qed.
+
+Lemma okb_drop : forall q n, okb b (q_toks q ++ q_toks u) -> okb b (q_toks (q_drop n q) ++ q_toks u).
+Proof.
+  intros q n. unfold q_drop; simpl. generalize (q_toks q). induction n as [|n IH]; intros l H; [exact H|].
+  destruct l as [|t l]; [exact H|]. simpl. apply IH. simpl in H. eapply okb_tl; exact H.
+Qed.
+
 Lemma q_push_qapp : forall t q, q_push t (qapp q u) = qapp (q_push t q) u.
 Proof. reflexivity. Qed.
 
@@ -58,11 +74,22 @@ Proof. reflexivity. Qed.
 Lemma okb_tail : forall q, q_toks q <> [] -> okb b (q_toks q ++ q_toks u) -> okb b (q_toks (q_tail q) ++ q_toks u).
 Proof. intros [t e i] H Hok; simpl in *. destruct t; [congruence|]. simpl in Hok. eapply okb_tl; exact Hok. Qed.
 
+(* after a successful [need], the direct index lexer.tokens[n] is the same in the longer queue *)
+Ltac fix_idx q t :=
+  unfold idx;
+  repeat match goal with
+         | |- context [nth_error (q_toks (qapp q u)) ?n] => rewrite (nth_qapp q n) by (simpl in *; lia)
+         end;
+  match goal with
+  | |- context [match nth_error (q_toks q) ?n with _ => _ end] =>
+      destruct (nth_error (q_toks q) n) as [t|]; [|reflexivity]
+  end.
+
 (* ---- the yielding look-ahead ---- *)
 Lemma need_resume : forall acc n q k,
   q_err q = false ->
-  ((n < length (q_toks q))%nat -> resume b (k q) u = k (qapp q u)) ->
-  resume b (need acc n q k) u = need acc n (qapp q u) k.
+  ((n < length (q_toks q))%nat -> resume b c (k q) u = k (qapp q u)) ->
+  resume b c (need acc n q k) u = need acc n (qapp q u) k.
 Proof.
   intros acc n q k Hq Hk. unfold need at 1.
   destruct (n <? length (q_toks q))%nat eqn:E.
@@ -75,9 +102,9 @@ Qed.
 (* ---- the look-ahead that does not yield (yields when b' = true) ---- *)
 Lemma look_resume : forall b' acc q kend kend2 k,
   q_err q = false ->
-  (q_toks q <> [] -> resume b (k q) u = k (qapp q u)) ->
-  (b' = false -> q_toks q = [] -> resume b (kend tt) u = look b' acc u kend2 k) ->
-  resume b (look b' acc q kend k) u = look b' acc (qapp q u) kend2 k.
+  (q_toks q <> [] -> resume b c (k q) u = k (qapp q u)) ->
+  (b' = false -> q_toks q = [] -> resume b c (kend tt) u = look b' acc u kend2 k) ->
+  resume b c (look b' acc q kend k) u = look b' acc (qapp q u) kend2 k.
 Proof.
   intros b' acc q kend kend2 k Hq Hk Hend. unfold look at 1.
   destruct (q_toks q) as [|t rest] eqn:E.
@@ -90,12 +117,12 @@ Proof.
 Qed.
 
 
-Lemma resume_final_err : forall acc, resume b (OErr acc) u = OErr acc. Proof. reflexivity. Qed.
+Lemma resume_final_err : forall acc, resume b c (OErr acc) u = OErr acc. Proof. reflexivity. Qed.
 
 (* ---- ParseBlockComment, ParseBacktickString ---- *)
 Lemma pblock_resume : forall f acc q text k,
   q_err q = false -> okb b (q_toks q ++ q_toks u) -> kcompat k ->
-  resume b (pblock f acc q text k) u = pblock f acc (qapp q u) text k.
+  resume b c (pblock f acc q text k) u = pblock f acc (qapp q u) text k.
 Proof.
   induction f as [|f IH]; intros acc q text k Hq Hok Hk; [reflexivity|].
   simpl. apply need_resume; [exact Hq|]. intros Hlen.
@@ -109,7 +136,7 @@ Qed.
 
 Lemma pbacktick_resume : forall acc q k,
   q_err q = false -> okb b (q_toks q ++ q_toks u) -> kcompat k ->
-  resume b (pbacktick acc q k) u = pbacktick acc (qapp q u) k.
+  resume b c (pbacktick acc q k) u = pbacktick acc (qapp q u) k.
 Proof.
   intros acc q k Hq Hok Hk. unfold pbacktick. apply need_resume; [exact Hq|]. intros Hlen.
   assert (q_toks q <> []) as Hne by (destruct (q_toks q); [simpl in Hlen; lia|discriminate]).
@@ -121,24 +148,24 @@ Qed.
 (* ---- the comment-skipping loop of the '{' look-ahead ---- *)
 Definition k3compat (k : queue -> token -> nat -> outcome) : Prop :=
   forall q tok2 extra, q_err q = false -> okb b (q_toks q ++ q_toks u) -> (1 <= extra <= length (q_toks q))%nat ->
-    resume b (k q tok2 extra) u = k (qapp q u) tok2 extra.
+    resume b c (k q tok2 extra) u = k (qapp q u) tok2 extra.
 
 Lemma curly_skip_resume : forall f acc q tok2 extra k,
   q_err q = false -> okb b (q_toks q ++ q_toks u) -> (1 <= extra <= length (q_toks q))%nat -> k3compat k ->
-  resume b (curly_skip f acc q tok2 extra k) u = curly_skip f acc (qapp q u) tok2 extra k.
+  resume b c (curly_skip f acc q tok2 extra k) u = curly_skip f acc (qapp q u) tok2 extra k.
 Proof.
   induction f as [|f IH]; intros acc q tok2 extra k Hq Hok Hex Hk; [reflexivity|].
   simpl. destruct (kind_is tok2 TBeginBlockComment).
   - apply need_resume; [exact Hq|]. intros Hlen.
-    rewrite (tok_at_qapp q (extra + 2)) by exact Hlen.
-    destruct (kind_is (tok_at q (extra + 2)) TComment).
+    fix_idx q t2.
+    destruct (kind_is t2 TComment).
     + apply need_resume; [exact Hq|]. intros Hlen2.
-      rewrite (tok_at_qapp q (extra + 3)) by exact Hlen2.
+      fix_idx q t3.
       apply IH; [exact Hq|exact Hok|lia|exact Hk].
     + apply IH; [exact Hq|exact Hok|lia|exact Hk].
   - destruct (kind_is tok2 TComment).
     + apply need_resume; [exact Hq|]. intros Hlen.
-      rewrite (tok_at_qapp q extra) by exact Hlen.
+      fix_idx q t3.
       apply IH; [exact Hq|exact Hok|lia|exact Hk].
     + apply Hk; assumption.
 Qed.
@@ -148,17 +175,17 @@ Qed.
 Definition Pexpr (f : nat) : Prop := forall acc top q k,
   q_err q = false -> okb b (q_toks q ++ q_toks u) ->
   (top = false -> b = false -> q_toks q <> []) -> kcompat k ->
-  (top = true -> q_toks q = [] -> resume b (k SEnd q) u = pexpr b f acc true u k) ->
-  resume b (pexpr b f acc top q k) u = pexpr b f acc top (qapp q u) k.
+  (top = true -> q_toks q = [] -> resume b c (k SEnd q) u = pexpr b c f acc true u k) ->
+  resume b c (pexpr b c f acc top q k) u = pexpr b c f acc top (qapp q u) k.
 Definition Plist (f : nat) : Prop := forall acc q endk k,
   q_err q = false -> okb b (q_toks q ++ q_toks u) -> kcompat k ->
-  resume b (plist b f acc q endk k) u = plist b f acc (qapp q u) endk k.
+  resume b c (plist b c f acc q endk k) u = plist b c f acc (qapp q u) endk k.
 Definition Parray (f : nat) : Prop := forall acc q arr k,
   q_err q = false -> okb b (q_toks q ++ q_toks u) -> kcompat k ->
-  resume b (parray b f acc q arr k) u = parray b f acc (qapp q u) arr k.
+  resume b c (parray b c f acc q arr k) u = parray b c f acc (qapp q u) arr k.
 Definition Pinfix (f : nat) : Prop := forall acc q arr k,
   q_err q = false -> okb b (q_toks q ++ q_toks u) -> kcompat k ->
-  resume b (pinfix b f acc q arr k) u = pinfix b f acc (qapp q u) arr k.
+  resume b c (pinfix b c f acc q arr k) u = pinfix b c f acc (qapp q u) arr k.
 
 Lemma len_ne : forall (q : queue) n, (n < length (q_toks q))%nat -> q_toks q <> [].
 Proof. intros q n H; destruct (q_toks q); [simpl in H; lia|discriminate]. Qed.
@@ -189,8 +216,8 @@ Proof.
       assert (forall name, kcompat (fun e q2 => k (list2 (sym name) e) q2)) as Hsug.
       { intros name e q2 He Hq2 Hok2. apply Hk; [reflexivity|exact Hq2|exact Hok2]. }
       assert (forall name kd, t_kind (tok_at q 0) = kd -> is_sugar (mkTok kd []) = true ->
-              resume b (pexpr b f acc false (q_tail q) (fun e q2 => k (list2 (sym name) e) q2)) u =
-              pexpr b f acc false (qapp (q_tail q) u) (fun e q2 => k (list2 (sym name) e) q2)) as Hs.
+              resume b c (pexpr b c f acc false (q_tail q) (fun e q2 => k (list2 (sym name) e) q2)) u =
+              pexpr b c f acc false (qapp (q_tail q) u) (fun e q2 => k (list2 (sym name) e) q2)) as Hs.
       { intros name kd Hkd Hsu. apply IHe; [exact Hq|exact Hok1| |apply Hsug|discriminate].
         intros _ Hb. exfalso. eapply sugar_absurd; eauto. }
       destruct (t_kind (tok_at q 0)) eqn:K;
@@ -210,23 +237,26 @@ Proof.
         red. intros q3 tok2 extra Hq3 Hok3 Hex3.
         assert (q_toks q3 <> []) as Hne3 by (destruct (q_toks q3); [simpl in Hex3; lia|discriminate]).
         assert (forall q4, q_err q4 = false -> okb b (q_toks q4 ++ q_toks u) ->
-                resume b (pinfix b f acc q4 [] k) u = pinfix b f acc (qapp q4 u) [] k) as Hinf
+                resume b c (pinfix b c f acc q4 [] k) u = pinfix b c f acc (qapp q4 u) [] k) as Hinf
           by (intros; apply IHi; assumption).
         assert (forall q4, q_err q4 = false -> okb b (q_toks q4 ++ q_toks u) ->
-                resume b (plist b f acc (q_push hash_tok q4) TRCurly k) u =
-                plist b f acc (q_push hash_tok (qapp q4 u)) TRCurly k) as Hhash.
+                resume b c (plist b c f acc (q_push hash_tok q4) TRCurly k) u =
+                plist b c f acc (q_push hash_tok (qapp q4 u)) TRCurly k) as Hhash.
         { intros q4 Hq4 Hok4. rewrite q_push_qapp. apply IHl; [exact Hq4| |exact Hk].
           simpl. apply okb_cons; [reflexivity|exact Hok4]. }
         destruct (t_kind tok2); try (apply Hinf; assumption).
-        * rewrite (qapp_tail q3 Hne3). apply Hk; [reflexivity|exact Hq3|apply okb_tail; assumption].
-        * apply need_resume; [exact Hq3|]. intros Hl. rewrite (tok_at_qapp q3 extra) by exact Hl.
-          destruct (kind_is (tok_at q3 extra) TColonOperator); [apply Hhash|apply Hinf]; assumption.
+        * replace (if c then q_drop extra (qapp q3 u) else q_tail (qapp q3 u))
+            with (qapp (if c then q_drop extra q3 else q_tail q3) u)
+            by (destruct c; [rewrite q_drop_qapp by lia|rewrite qapp_tail by exact Hne3]; reflexivity).
+          apply Hk; [reflexivity|destruct c; exact Hq3|destruct c; [apply okb_drop|apply okb_tail]; assumption].
+        * apply need_resume; [exact Hq3|]. intros Hl. fix_idx q3 t2.
+          destruct (kind_is t2 TColonOperator); [apply Hhash|apply Hinf]; assumption.
         * apply need_resume; [exact Hq3|]. intros Hl.
-          rewrite (tok_at_qapp q3 extra) by lia. rewrite (tok_at_qapp q3 (extra + 1)) by exact Hl.
-          destruct (kind_is (tok_at q3 extra) TBacktickString && kind_is (tok_at q3 (extra + 1)) TColonOperator);
+          fix_idx q3 t2. fix_idx q3 t3.
+          destruct (kind_is t2 TBacktickString && kind_is t3 TColonOperator);
             [apply Hhash|apply Hinf]; assumption.
-        * apply need_resume; [exact Hq3|]. intros Hl. rewrite (tok_at_qapp q3 extra) by exact Hl.
-          destruct (kind_is (tok_at q3 extra) TSymbol && list_eqb (t_str (tok_at q3 extra)) str_for);
+        * apply need_resume; [exact Hq3|]. intros Hl. fix_idx q3 t2.
+          destruct (kind_is t2 TSymbol && list_eqb (t_str t2) str_for);
             [apply Hinf|apply Hhash]; assumption.
       + (* TSymbol *)
         destruct (list_eqb (t_str (tok_at q 0)) [45] || list_eqb (t_str (tok_at q 0)) [43]);
@@ -240,7 +270,10 @@ Proof.
         * apply Hk; [reflexivity|exact Hq|exact Hok1].
       + (* TFloat *)
         destruct (list_eqb (t_str (tok_at q 0)) str_NaN); [apply Hk; [reflexivity|exact Hq|exact Hok1]|].
-        destruct (float_ok (t_str (tok_at q 0))); [apply Hk; [reflexivity|exact Hq|exact Hok1]|reflexivity]. }
+        destruct (float_ok (t_str (tok_at q 0))); [apply Hk; [reflexivity|exact Hq|exact Hok1]|reflexivity].
+      + (* TUint64 *)
+        destruct (length (t_str (tok_at q 0)) <? 3)%nat; [reflexivity|].
+        destruct (conv_uint64 (t_str (tok_at q 0))); [apply Hk; [reflexivity|exact Hq|exact Hok1]|reflexivity]. }
     assert (Plist (S f)) as HL.
     { red. intros acc q endk k Hq Hok Hk. simpl plist.
       apply need_resume; [exact Hq|]. intros Hlen.
@@ -251,8 +284,8 @@ Proof.
       - apply IHe; [exact Hq|exact Hok|intros _ _; exact Hne| |discriminate].
         red. intros head q2 Hhead Hq2 Hok2.
         assert (forall q5, q_err q5 = false -> okb b (q_toks q5 ++ q_toks u) ->
-                resume b (plist b f acc q5 endk (fun tl q' => k (SPair head tl) q')) u =
-                plist b f acc (qapp q5 u) endk (fun tl q' => k (SPair head tl) q')) as Hrest.
+                resume b c (plist b c f acc q5 endk (fun tl q' => k (SPair head tl) q')) u =
+                plist b c f acc (qapp q5 u) endk (fun tl q' => k (SPair head tl) q')) as Hrest.
         { intros q5 Hq5 Hok5. apply IHl; [exact Hq5|exact Hok5|].
           red. intros tl q6 _ Hq6 Hok6. apply Hk; [reflexivity|exact Hq6|exact Hok6]. }
         apply look_resume; [exact Hq2| |].
@@ -302,7 +335,7 @@ Qed.
 (* ---- ParsingIter: the whole coroutine, including the restart after it saw the end of the input ---- *)
 Lemma ptop_resume : forall f acc q,
   q_err q = false -> okb b (q_toks q ++ q_toks u) ->
-  resume b (ptop b f acc q) u = ptop b f acc (qapp q u).
+  resume b c (ptop b c f acc q) u = ptop b c f acc (qapp q u).
 Proof.
   induction f as [|f IH]; intros acc q Hq Hok; [reflexivity|].
   simpl ptop. apply (proj1 (main_resume f)); [exact Hq|exact Hok|discriminate| |].
@@ -313,12 +346,12 @@ Qed.
 End Resume.
 
 (* ---- token level: resuming = running on the longer token list ---- *)
-Theorem resume_is_rerun : forall b f acc t1 i1 t2 e2 i2,
+Theorem resume_is_rerun : forall b c f acc t1 i1 t2 e2 i2,
   (b = true \/ (nosugar (t1 ++ t2) /\ e2 = false)) ->
-  resume b (ptop b f acc (mkQ t1 false i1)) (mkQ t2 e2 i2) = ptop b f acc (mkQ (t1 ++ t2) e2 i2).
+  resume b c (ptop b c f acc (mkQ t1 false i1)) (mkQ t2 e2 i2) = ptop b c f acc (mkQ (t1 ++ t2) e2 i2).
 Proof.
-  intros b f acc t1 i1 t2 e2 i2 H.
-  apply (ptop_resume b (mkQ t2 e2 i2)); simpl.
+  intros b c f acc t1 i1 t2 e2 i2 H.
+  apply (ptop_resume b c (mkQ t2 e2 i2)); simpl.
   - intros Hb. destruct H as [H|[_ H]]; [congruence|exact H].
   - reflexivity.
   - destruct H as [H|[H _]]; [left; exact H|right; exact H].
@@ -327,10 +360,10 @@ Qed.
 (* ---- delivery of a text in pieces ---- *)
 
 (* the state of a parser that has been reset and then given the text t in any number of pieces *)
-Definition after_text (b : bool) (fuel : nat) (t : list Z) : pstate :=
+Definition after_text (b c : bool) (fuel : nat) (t : list Z) : pstate :=
   let x := lex_all init_lstate t in
   mkP (set_tokens [] (lres_state x))
-      (ptop b fuel [] (mkQ (l_tokens (lres_state x)) (negb (lres_ok x)) (in_string_or_rune (lres_state x)))).
+      (ptop b c fuel [] (mkQ (l_tokens (lres_state x)) (negb (lres_ok x)) (in_string_or_rune (lres_state x)))).
 
 Lemma set_tokens_pre_q : forall pre s, set_tokens [] (pre_q pre s) = set_tokens [] s.
 Proof. intros pre s; destruct s; reflexivity. Qed.
@@ -341,10 +374,10 @@ Proof. intros pre s; destruct s; reflexivity. Qed.
 Lemma in_str_pre_q : forall pre s, in_string_or_rune (pre_q pre s) = in_string_or_rune s.
 Proof. intros pre s; destruct s; reflexivity. Qed.
 
-Lemma deliver_first : forall b fuel p t,
-  p_deliver b (p_reset fuel p) t = after_text b fuel t.
+Lemma deliver_first : forall b c fuel p t,
+  p_deliver b c (p_reset fuel p) t = after_text b c fuel t.
 Proof.
-  intros b fuel p t. unfold p_deliver, p_reset, after_text; simpl.
+  intros b c fuel p t. unfold p_deliver, p_reset, after_text; simpl.
   rewrite reset_is_init. reflexivity.
 Qed.
 
@@ -352,11 +385,11 @@ Definition cont_ok (b : bool) (t c : list Z) : Prop :=
   b = true \/ (nosugar (l_tokens (lres_state (lex_all init_lstate (t ++ c)))) /\
                lres_ok (lex_all init_lstate (t ++ c)) = true).
 
-Lemma deliver_next : forall b fuel t c,
+Lemma deliver_next : forall b cf fuel t c,
   lres_ok (lex_all init_lstate t) = true -> cont_ok b t c ->
-  p_deliver b (after_text b fuel t) c = after_text b fuel (t ++ c).
+  p_deliver b cf (after_text b cf fuel t) c = after_text b cf fuel (t ++ c).
 Proof.
-  intros b fuel t c Hok Hc. unfold cont_ok in Hc. unfold p_deliver, after_text in *. cbn [ps_lex ps_out].
+  intros b cf fuel t c Hok Hc. unfold cont_ok in Hc. unfold p_deliver, after_text in *. cbn [ps_lex ps_out].
   rewrite (lex_all_app t c) in *.
   destruct (lex_all init_lstate t) as [s|s]; [|discriminate]. cbn [lres_state lres_ok negb] in *.
   rewrite (lex_all_emptied s c) in *.
@@ -374,13 +407,13 @@ Fixpoint pieces_ok (b : bool) (t : list Z) (pieces : list (list Z)) : Prop :=
   | c :: rest => lres_ok (lex_all init_lstate t) = true /\ cont_ok b t c /\ pieces_ok b (t ++ c) rest
   end.
 
-Lemma deliver_all_from : forall b fuel pieces t,
+Lemma deliver_all_from : forall b cf fuel pieces t,
   pieces_ok b t pieces ->
-  p_deliver_all b (after_text b fuel t) pieces = after_text b fuel (t ++ concat pieces).
+  p_deliver_all b cf (after_text b cf fuel t) pieces = after_text b cf fuel (t ++ concat pieces).
 Proof.
   induction pieces as [|c rest IH]; intros t H; simpl.
   - rewrite app_nil_r; reflexivity.
-  - destruct H as [H1 [H2 H3]]. rewrite (deliver_next b fuel t c H1 H2), (IH _ H3), app_assoc. reflexivity.
+  - destruct H as [H1 [H2 H3]]. rewrite (deliver_next b cf fuel t c H1 H2), (IH _ H3), app_assoc. reflexivity.
 Qed.
 
 Lemma concat_mark_last : forall pieces, concat (mark_last pieces) = concat pieces ++ nl.
@@ -394,20 +427,20 @@ Proof.
     rewrite app_assoc. reflexivity.
 Qed.
 
-Theorem pieces_is_whole : forall b fuel pieces,
+Theorem pieces_is_whole : forall b cf fuel pieces,
   match mark_last pieces with
   | [] => True
   | first :: rest => pieces_ok b first rest
   end ->
-  parse_pieces b fuel pieces = parse_whole b fuel (concat pieces).
+  parse_pieces b cf fuel pieces = parse_whole b cf fuel (concat pieces).
 Proof.
-  intros b fuel pieces H. unfold parse_pieces, parse_whole, parse_after.
+  intros b cf fuel pieces H. unfold parse_pieces, parse_whole, parse_after.
   rewrite deliver_first, <- concat_mark_last.
   destruct (mark_last pieces) as [|first rest] eqn:E.
   - destruct pieces as [|x [|y r]]; discriminate.
-  - cbn [p_deliver_all]. rewrite deliver_first. rewrite (deliver_all_from b fuel rest first H). reflexivity.
+  - cbn [p_deliver_all]. rewrite deliver_first. rewrite (deliver_all_from b cf fuel rest first H). reflexivity.
 Qed.
 
 (* history: whatever state the parser is in, ResetAddNewInput starts from the initial one *)
-Theorem parse_after_any : forall b fuel p text, parse_after b fuel p text = parse_whole b fuel text.
+Theorem parse_after_any : forall b cf fuel p text, parse_after b cf fuel p text = parse_whole b cf fuel text.
 Proof. intros. unfold parse_whole, parse_after. rewrite !deliver_first. reflexivity. Qed.
